@@ -711,3 +711,32 @@ func init() {
 	_ = tq.NewPacket(tq.SetPacketBodyUnsafe(tq.NewAcctReply()))
 	response.Reply(`}}})
 }
+
+func init() {
+	addMutant(Mutant{Name: "c14-revert-keychain-fix", Props: []string{"C14"}, Rule: "R-NILIFACE", KeySub: "bcrypt",
+		Why: "the bcrypt factory drops the keychain again",
+		Edits: []Edit{{File: "cmds/server/config/authenticators/bcrypt/bcrypt.go", Old: `	return &Authenticator{loggerProvider: a.loggerProvider, username: username, supportedOptions: opts, getSecret: a.getSecret}, nil`, New: `	return &Authenticator{loggerProvider: a.loggerProvider, username: username, supportedOptions: opts}, nil`}}})
+	addMutant(Mutant{Name: "c14-getuser-unchecked", Props: []string{"C14", "C10"}, Rule: "R-NILCHECK", KeySub: "AuthenticatePAP",
+		Why: "the nil check after GetUser is dropped in the PAP handler: unknown users crash the server",
+		Edits: []Edit{{File: "cmds/server/handlers/authen_pap.go", Old: `	c := a.GetUser(string(body.User))
+	if c == nil {`, New: `	c := a.GetUser(string(body.User))
+	if c == nil && len(body.Port) > 250 {`}}})
+	addMutant(Mutant{Name: "c14-asv-without-negative-check", Props: []string{"C14"}, Rule: "R-BOUNDS", KeySub: "ASV",
+		Why: "Arg.ASV slices at the separator index without handling 'not found'",
+		Edits: []Edit{{File: "authorize_fields.go", Old: `	if i < 0 {
+		return "", "", ""
+	}
+	return s[:i], string(s[i]), s[i+1:]`, New: `	return s[:i], string(s[i]), s[i+1:]`}}})
+	addMutant(Mutant{Name: "c14-router-without-nil-check", Props: []string{"C14"}, Rule: "R-NILCHECK", KeySub: "AuthenticateStart",
+		Why: "the START router calls the looked-up handler without checking for the unimplemented (nil) entries",
+		Edits: []Edit{{File: "cmds/server/handlers/authen.go", Old: `	if h := authenRouter[key]; h != nil {
+		h.Handle(response, request)
+		return
+	}`, New: `	if h, ok := authenRouter[key]; ok {
+		h.Handle(response, request)
+		return
+	}`}}})
+	addMutant(Mutant{Name: "c14-logger-dropped-from-response-logger", Props: []string{"C14"}, Rule: "R-NILIFACE", KeySub: "ResponseLogger",
+		Why: "the packet logger builds its ResponseLogger without a logger: the first logged reply dereferences nil",
+		Edits: []Edit{{File: "cmds/server/handlers/response_logger.go", Old: `	return &ctxLogger{loggerProvider: l, Writer: &ResponseLogger{loggerProvider: l}}`, New: `	return &ctxLogger{loggerProvider: l, Writer: &ResponseLogger{}}`}}})
+}
